@@ -129,9 +129,16 @@ func stmtKind(line string) string {
 var closerRe = regexp.MustCompile(`^\s*(end|else|elsif|when|in|rescue|ensure|\}|\)|\])\b?`)
 
 // fragment generates an independent fragment and a kind label.
-func genFragment(r *RNG) (string, string) {
-	kinds := []string{"assign", "conditional", "narrowing", "block", "array", "union-call", "while", "case", "mixed"}
+func genFragment(r *RNG) (string, string) { return genFragmentKind(r, "") }
+
+var fragmentKinds = []string{"assign", "conditional", "narrowing", "block", "array", "union-call", "while", "case", "mixed", "modifier-if", "modifier-unless", "modifier-while", "ends-with-builtin-block", "ends-with-call"}
+
+func genFragmentKind(r *RNG, forced string) (string, string) {
+	kinds := []string{"assign", "conditional", "narrowing", "block", "array", "union-call", "while", "case", "mixed", "modifier-if", "modifier-unless", "modifier-while", "ends-with-builtin-block", "ends-with-call", "mixed"}
 	kind := Pick(r, kinds)
+	if forced != "" {
+		kind = forced
+	}
 	var lines []string
 	switch kind {
 	case "assign":
@@ -155,6 +162,16 @@ func genFragment(r *RNG) (string, string) {
 		lines = []string{"zq1 = [1, \"a\", 2.5]", "zq2 = zq1[0]", "zq1.push(:s)"}
 	case "union-call":
 		lines = []string{"zq0 = true", "zq1 = zq0 ? 1 : \"s\"", "zq2 = zq1.to_s", "zq3 = zq1.nil?"}
+	case "modifier-if":
+		lines = []string{"zq1 = 1", "zq2 = \"s\" if zq1 > 0"}
+	case "modifier-unless":
+		lines = []string{"zq1 = 1", "zq2 = 2.5 unless zq1.nil?"}
+	case "modifier-while":
+		lines = []string{"zq1 = 0", "zq1 = zq1 + 1 while zq1 < 3"}
+	case "ends-with-builtin-block":
+		lines = []string{Pick(r, []string{"\"abc\".each_char do |zq1|\n  zq2 = zq1\nend", "3.times do |zq1|\n  zq2 = zq1\nend", "{a: 1}.each do |zq1, zq2|\n  zq3 = zq2\nend", "[1.5].each { |zq1| zq2 = zq1 }", "(1..3).each do |zq1|\n  zq2 = zq1\nend"})}
+	case "ends-with-call":
+		lines = []string{"zq1 = \"abc\"", Pick(r, []string{"zq1.upcase", "zq2 = zq1.length", "zq1.split(\",\")", "zq3 = [1, 2].first", "zq4 = 1.to_s", "p(zq1)", "zq1 + \"x\""})}
 	case "while":
 		lines = []string{"zq1 = 0", "while zq1 < 3", "  zq1 = zq1 + 1", "end"}
 	case "case":
@@ -228,6 +245,51 @@ func init() {
 					}
 				}
 				add(rd.Text(), "generated", bs)
+			}
+			// hosts built from statements that are sensitive to state leaking from the
+			// previous statement; the fragment goes right in front of each of them
+			sens := []string{
+				"if hx.is_a?(String)\n  dbtp hx\nelse\n  dbtp hx\nend", "unless hx.nil?\n  dbtp hx\nend", "hu.each do |he|\n  dbtp he\nend", "[1, 2].each do |hi|\n  dbtp hi\nend",
+				"hy = hx.nil? ? 1 : 2\ndbtp hy", "dbtp hm(1)", "-1.abs", "[3, \"q\"].each { |hz| dbtp hz }", "(1..2).each do |hr|\n  dbtp hr\nend", ":sym.to_s", "\"str\".upcase",
+				"hv = !hf\ndbtp hv", "case hn\nwhen 1\n  dbtp hn\nelse\n  dbtp hx\nend", "while hn < 1\n  hn = hn + 1\nend\ndbtp hn", "hh = {a: 1}\ndbtp hh[:a]", "ha = [1, \"s\"]\ndbtp ha[0]",
+				"hx.zork", "hn + \"s\"", "ho = Hbox.new\ndbtp ho.get", "dbtp Hbox.make", "hw = hu\ndbtp hw", "return_free = 1\ndbtp return_free",
+			}
+			prelude := "hf = true\nhx = hf ? \"a\" : 1\nhu = hf ? [1] : (1..2)\nhn = 0\ndef hm(a)\n  a\nend\nclass Hbox\n  def get\n    1.5\n  end\n  def self.make\n    :m\n  end\nend\n"
+			// every (sensitive statement, fragment kind) pair is covered in each pass
+			passes := c.N(3, 24)
+			total := passes * len(sens) * len(fragmentKinds)
+			for k := 0; k < total; k++ {
+				forcedStmt := sens[k%len(sens)]
+				forcedKind := fragmentKinds[(k/len(sens))%len(fragmentKinds)]
+				var sb strings.Builder
+				sb.WriteString(prelude)
+				n := 1 + r.Intn(3)
+				var starts []int
+				inDef := r.Chance(1, 4)
+				ind := ""
+				if inDef {
+					sb.WriteString("def hwrap(hx, hu, hn, hf)\n")
+					ind = "  "
+				}
+				target := r.Intn(n)
+				for q := 0; q < n; q++ {
+					starts = append(starts, strings.Count(sb.String(), "\n")+1)
+					st := Pick(r, sens)
+					if q == target {
+						st = forcedStmt
+					}
+					for _, l := range strings.Split(st, "\n") {
+						sb.WriteString(ind + l + "\n")
+					}
+				}
+				if inDef {
+					sb.WriteString("  nil\nend\nhwrap(hx, hu, hn, hf)\n")
+				}
+				host := sb.String()
+				hl := strings.Split(host, "\n")
+				b := starts[target]
+				f, kind := genFragmentKind(r, forcedKind)
+				jobs = append(jobs, &indepCase{Host: host, Fragment: f, Line: b, Mode: Pick(r, modes), Origin: "sensitive", FragKind: kind, NextKind: stmtKind(hl[b-1])})
 			}
 			c.Extra("triples", len(jobs))
 			c.Eng.Map(len(jobs), func(s *Slot, i int) {
@@ -315,6 +377,90 @@ var freshClasses = map[string][]string{
 	"30": {"QqqqVeryLongClassNameForTest01", "XxxxAnotherLongClassNameTest09"},
 }
 
+// genAccessorProgram builds a class with getter/setter/predicate methods,
+// keyword parameters and instance variables, all renameable.
+func genAccessorProgram(r *RNG) *Program {
+	p := &Program{Names: map[string]string{}, Kinds: map[string]string{}}
+	n := 0
+	id := func(kind, def string) string {
+		n++
+		k := fmt.Sprintf("%s:%d", kind, n)
+		p.Names[k] = def
+		p.Kinds[k] = kind
+		return ph(k)
+	}
+	cl := id("class", "Holder")
+	g := id("method", "val")
+	g2 := id("method", "size2")
+	pr := id("method", "ready")
+	m := id("method", "configure")
+	pa, pb := id("local", "arg"), id("local", "other")
+	k1, k2, k3 := id("kw", "width"), id("kw", "height"), id("kw", "depth")
+	v1, v2 := id("local", "box"), id("local", "res")
+	lit := func() string { return Pick(r, []string{"1", "\"s\"", "1.5", ":sym"}) }
+	var lines []string
+	add := func(l ...string) { lines = append(lines, l...) }
+	iv1, iv2, iv3 := "@"+id("ivar", "slot"), "@"+id("ivar", "slot2"), "@"+id("ivar", "spare")
+	if r.Bool() {
+		// the setter writes another variable than the getter reads
+		add("class "+cl, "  def "+g+"=("+pa+")", "    "+iv3+" = "+pa, "  end", "  def "+g, "    "+iv1, "  end")
+	} else {
+		add("class "+cl, "  def "+g, "    "+iv1, "  end", "  def "+g+"=("+pa+")", "    "+iv1+" = "+pa, "  end")
+	}
+	if r.Bool() {
+		add("  def "+g2+"=("+pa+")", "    "+iv2+" = "+pa, "  end", "  def "+g2, "    "+iv2, "  end")
+	}
+	wo := id("method", "label")
+	add("  def "+wo+"=("+pa+")", "    "+iv3+" = "+pa, "  end")
+	add("  def "+pr+"?", "    true", "  end")
+	add("  def "+m+"("+pb+", "+k1+": 1, "+k2+": \"s\", "+k3+": 1.5)", "    dbtp "+k1, "    dbtp "+k2, "    dbtp "+k3, "    "+Pick(r, []string{k1, k2, k3}), "  end", "end")
+	add(v1+" = "+cl+".new", "dbtp "+v1+"."+g, v1+"."+g+" = "+lit(), "dbtp "+v1+"."+g)
+	if strings.Contains(strings.Join(lines, "\n"), g2) {
+		add(v1+"."+g2+" = "+lit(), "dbtp "+v1+"."+g2)
+	}
+	add(v1+"."+wo+" = "+lit(), "dbtp "+v1+"."+wo)
+	add("dbtp "+v1+"."+pr+"?")
+	kws := []string{k1 + ": " + lit(), k2 + ": " + lit(), k3 + ": " + lit()}
+	Shuffle(r, kws)
+	add(v2+" = "+v1+"."+m+"(1, "+strings.Join(kws[:1+r.Intn(3)], ", ")+")", "dbtp "+v2)
+	for _, l := range lines {
+		p.Nodes = append(p.Nodes, &Node{Kind: "raw", Head: l})
+	}
+	return p
+}
+
+// adjacentName derives a fresh name from another identifier of the program:
+// names that only differ in a trailing digit, a prefix or a suffix.
+func adjacentName(r *RNG, other string, kind string) string {
+	if other == "" {
+		return ""
+	}
+	var c string
+	switch r.Intn(5) {
+	case 0:
+		c = other + "1"
+	case 1:
+		c = other + "_"
+	case 2:
+		c = other + "x"
+	case 3:
+		if len(other) > 2 {
+			c = other[:len(other)-1]
+		} else {
+			c = other + "q"
+		}
+	default:
+		c = "a" + other
+	}
+	if kind == "class" {
+		c = strings.ToUpper(c[:1]) + c[1:]
+		if !strings.ContainsAny(c[1:], "abcdefghijklmnopqrstuvwxyz") {
+			c += "q"
+		}
+	}
+	return c
+}
+
 var assignedLocalRe = regexp.MustCompile(`(?m)^\s*([a-z_][a-z0-9_]*)\s*=[^=~]`)
 
 func init() {
@@ -332,8 +478,11 @@ func init() {
 			r := c.RNG.Sub(13)
 			modes := [][]string{{}, {"-i"}}
 			var jobs []*renameCase
-			for k := 0; k < c.N(350, 9000); k++ {
+			for k := 0; k < c.N(450, 12000); k++ {
 				p := genProgram(r, GenOpts{Classes: true, Stmts: 5 + r.Intn(10)})
+				if k%3 == 0 {
+					p = genAccessorProgram(r)
+				}
 				// distinctive names for rendering A
 				nameA := map[string]string{}
 				ids := make([]string, 0, len(p.Names))
@@ -349,6 +498,10 @@ func init() {
 						nameA[id] = fmt.Sprintf("mqa%d", i)
 					case "class":
 						nameA[id] = fmt.Sprintf("Cqa%dx", i)
+					case "kw":
+						nameA[id] = fmt.Sprintf("kqa%d", i)
+					case "ivar":
+						nameA[id] = fmt.Sprintf("iqa%d", i)
 					}
 				}
 				nameB := map[string]string{}
@@ -373,11 +526,62 @@ func init() {
 						pool = freshMethods
 					case "class":
 						pool = freshClasses
+					case "kw", "ivar":
+						pool = freshLocals
 					default:
 						continue
 					}
-					lc := Pick(r, []string{"1", "2", "8", "30"})
-					fresh := Pick(r, pool[lc])
+					lc := Pick(r, []string{"1", "2", "8", "30", "adjacent"})
+					var fresh string
+					if lc == "same-as-ivar" {
+						// the name of an identifier of another lexical category (a method
+						// called like an instance variable, a keyword like an ivar, ...)
+						var others []string
+						for _, oid := range ids {
+							// only the spelling of an instance variable without its '@' is used:
+							// as an identifier token that name does not occur in the program,
+							// so it still is a fresh name
+							ok := p.Kinds[oid] == "ivar" && kind != "ivar" && kind != "class"
+							if ok {
+								others = append(others, nameB[oid])
+							}
+						}
+						if len(others) == 0 {
+							continue
+						}
+						fresh = Pick(r, others)
+						for oid, v := range nameB {
+							if v == fresh && p.Kinds[oid] == kind {
+								fresh = ""
+							}
+						}
+						if fresh == "" {
+							continue
+						}
+						used[fresh] = false
+					} else if lc == "adjacent" {
+						// next to another identifier of the same rendering
+						var others []string
+						for _, oid := range ids {
+							if oid != id && p.Kinds[oid] == kind {
+								others = append(others, nameB[oid])
+							}
+						}
+						if len(others) == 0 {
+							continue
+						}
+						fresh = adjacentName(r, Pick(r, others), kind)
+						for _, v := range nameB {
+							if v == fresh {
+								fresh = ""
+							}
+						}
+						if fresh == "" || rubyKeywords[fresh] {
+							continue
+						}
+					} else {
+						fresh = Pick(r, pool[lc])
+					}
 					if used[fresh] {
 						continue
 					}
